@@ -35,10 +35,12 @@ Items(kind, fill) == ItemsFrom(kind, fill, 1)
 
 VItems == [v \in 1 .. NV |-> Items(Variants[v].kind, Variants[v].fill)]     \* evaluated once
 
-\* the variants that may expand the pending request h (at depth 0 only leaf variants, if the category has any)
-Cands(h) == LET base == {v \in 1 .. NV : Usable(v) /\ InCat(v, h.cat) /\ Variants[v].lvl >= h.min}
-                leafs == {v \in base : Variants[v].leaf}
-            IN IF h.d > 0 \/ leafs = {} THEN base ELSE leafs
+\* the variants that may expand the pending request h (at depth 0 only leaf variants, if the category has any);
+\* tabulated once per run (constant-level definitions are evaluated once by TLC)
+AllCats == UNION {Variants[v].cats : v \in 1 .. NV} \cup {RootCat, "inner", "nsitem", "top", "top1"}
+CandBase == [c \in AllCats |-> [m \in 0 .. 31 |-> {v \in 1 .. NV : Usable(v) /\ InCat(v, c) /\ Variants[v].lvl >= m}]]
+CandLeaf == [c \in AllCats |-> [m \in 0 .. 31 |-> {v \in CandBase[c][m] : Variants[v].leaf}]]
+Cands(h) == IF h.d > 0 \/ CandLeaf[h.cat][h.min] = {} THEN CandBase[h.cat][h.min] ELSE CandLeaf[h.cat][h.min]
 
 \* all assignments of <<length, trailing separator?>> to the lists among items
 RECURSIVE Lens(_, _, _)
@@ -47,6 +49,8 @@ Lens(items, i, d) ==
    ELSE IF items[i].f # "ls" THEN Lens(items, i + 1, d)
    ELSE LET ns == IF d = 0 THEN {items[i].lo} ELSE items[i].lo .. items[i].hi
         IN {<<<<n, t>>>> \o rest : n \in ns, t \in (IF items[i].trail = "opt" THEN BOOLEAN ELSE {FALSE}), rest \in Lens(items, i + 1, d)}
+
+LensTab == [v \in 1 .. NV |-> [z \in BOOLEAN |-> Lens(VItems[v], 1, IF z THEN 0 ELSE 1)]]    \* Lens depends on d only through d = 0
 
 RECURSIVE Kids(_, _, _, _, _), Rep(_, _)
 Rep(x, n) == IF n = 0 THEN <<>> ELSE <<x>> \o Rep(x, n - 1)
@@ -69,8 +73,8 @@ Expand == /\ todo # <<>> /\ ~done
           /\ LET h == Head(todo) IN
              IF Random
              THEN \E v \in {RandomElement(Cands(h))} :                     \* sampling (-simulate): one successor per step
-                    \E lens \in {RandomElement(Lens(VItems[v], 1, h.d))} : Apply(h, v, lens)
-             ELSE \E v \in Cands(h) : \E lens \in Lens(VItems[v], 1, h.d) : Apply(h, v, lens)
+                    \E lens \in {RandomElement(LensTab[v][h.d = 0])} : Apply(h, v, lens)
+             ELSE \E v \in Cands(h) : \E lens \in LensTab[v][h.d = 0] : Apply(h, v, lens)
           /\ UNCHANGED done
 
 Finish == /\ todo = <<>> /\ ~done
